@@ -150,7 +150,7 @@ def monitor(op, out, st):
             if nn == 0:
                 exact = err
             else:
-                w = [v[i] - F(gh[i]) for i in range(n)]
+                w = [v[i] + F(gh[i]) for i in range(n)]      # −w of the documented formula (|·|₁ is the same)
                 c = sum(abs(a) for a in w); d = sum(abs(F(a)) for a in yh)
                 sd = max(F(100), (c + d) / nn) / 100
                 exact = err / sd
@@ -275,6 +275,8 @@ def main(argv):
     ps = C.proof_stage(rep, 'C06', gens, modules, driver='drv_c06', extra_sources=extra, extra_targets=drivers)
     broken = list(ps['broken'])
     found, exe, search = kernel_stage(rep, broken, tier)
+    import c06_findings            # regression ops of the two repaired C06 defects (max_no_progress = 0, Ipopt sign)
+    c06_findings.stage(rep)
     found = c06_loop.loop_stage(rep, broken, tier, sols) or found
     rep.cov['distinct_nontrivial'] = rep.cov.get('distinct_nontrivial_kernel', 0) + \
         rep.cov.get('distinct_nontrivial_loop', 0)
